@@ -17,7 +17,7 @@ pub fn meta() -> Meta {
     Meta {
         id: "C07",
         level: "model_checking",
-        rule: "explicit-state search over pools of .skf files: level 0 = every ordered list of distinct samples (all subsets, all orders) built with the real build; each further level merges every ordered selection of 2..4 known files with disjoint sample sets through the real generic_modes::merge (the function `ska merge` calls); a file's state is its full content incl. hidden fields and states are de-duplicated, so the search closes when merged files are indistinguishable from built ones and keeps expanding otherwise (nested merges). Invariant in every state: table and name order equal the model's joint table and the real joint build of the same samples in that order. k in {7,31,33,63} x strand modes; n<=5 quick; thorough adds n=5 at both widths and n=6 with pairwise merges (chains and trees arise over the levels). Refusals (different k incl. 31 vs 33, different strand mode, both orders, the incompatible file in second or third position) through the CLI: non-zero exit and no output file. Selected merge trees are re-executed through `ska merge`, files whose samples share a name (same base name in different directories, the same file twice) are merged through the CLI and compared with the joint build, merges whose output file is one of the inputs (first, last, with ./ and suffix) must still hold all inputs in argument order, and `ska align` of the merged file is compared with `ska align` of the jointly built file.".into(),
+        rule: "explicit-state search over pools of .skf files: level 0 = every ordered list of distinct samples (all subsets, all orders) built with the real build; each further level merges every ordered selection of 2..4 known files with disjoint sample sets through the real generic_modes::merge (the function `ska merge` calls); a file's state is its full content incl. hidden fields and states are de-duplicated, so the search closes when merged files are indistinguishable from built ones and keeps expanding otherwise (nested merges). Invariant in every state: table and name order equal the model's joint table and the real joint build of the same samples in that order. k in {7,31,33,63} x strand modes; n<=5 quick; thorough adds n=5 at both widths and n=6 with pairwise merges (chains and trees arise over the levels). Refusals (different k incl. 31 vs 33, different strand mode, both orders, the incompatible file in second or third position) through the CLI: non-zero exit and no output file. Selected merge trees are re-executed through `ska merge`, files whose samples share a name (same base name in different directories, the same file twice) are merged through the CLI and compared with the joint build, merges whose output file is one of the inputs (first, last, with ./ and suffix) must still hold all inputs in argument order, and `ska align`, `ska distance` and `ska map` of the merged file are compared with `ska align` of the jointly built file.".into(),
         assumptions: vec!["sorted-row canonical form: merge treats rows independently".into()],
         exhaustive_when_uncapped: true, // the declared bounded space (all selections / the whole lattice / all histories up to the depth bound / all interleavings and configurations) is enumerated completely unless capped
     }
@@ -210,6 +210,23 @@ fn explore_cfg(c: &Cfg, ctx: &Ctx, rep: &mut Report, idx: &mut u64, max_level: u
                         c.sort();
                         c
                     };
+                    if flags[1] == "1" {
+                        // and `ska distance`, `ska map` of the two files print the same text
+                        for cmd in [vec!["distance"], vec!["map", "c07ref.fa"]] {
+                            if cmd[0] == "map" {
+                                std::fs::write(format!("{dir}/c07ref.fa"), scratch::fasta(&c.pool[0])).unwrap();
+                            }
+                            let mut b1 = cmd.clone();
+                            b1.push("ab.skf");
+                            let mut b2 = cmd.clone();
+                            b2.push(joint.as_str());
+                            let (p1, p2) = (cli::run(&b1, &dir, None), cli::run(&b2, &dir, None));
+                            rep.evaluations += 1;
+                            if p1.code != p2.code || p1.stdout != p2.stdout {
+                                rep.violate(format!("{label} cli merge then {}", cmd[0]), format!("ska {} prints different text for the merged file (exit {}) and the jointly built file (exit {})", cmd[0], p1.code, p2.code), json!({"label": label, "cli": format!("merge s0 + [s2,s1] then {}", cmd[0])}));
+                            }
+                        }
+                    }
                     if o1.code != o2.code || cols(&o1) != cols(&o2) {
                         rep.violate(format!("{label} cli merge then align {flags:?}"), format!("ska align {flags:?} gives {} columns on the merged file and {} on the jointly built file", cols(&o1).len(), cols(&o2).len()), json!({"label": label, "cli": "merge s0 + [s2,s1] then align"}));
                     }
